@@ -748,9 +748,12 @@ func refreshRing(r *ringDescriber) error {
 			reported[h.HostID()] = struct{}{}
 		}
 	}
+	// (the policies have then forgotten every host at the address of a removed one)
+	freedAddrs := make(map[string]struct{})
 	for id, host := range prevHosts {
 		if _, ok := reported[id]; !ok {
 			r.session.removeHost(host)
+			freedAddrs[host.ConnectAddress().String()] = struct{}{}
 			delete(prevHosts, id)
 		}
 	}
@@ -800,6 +803,11 @@ func refreshRing(r *ringDescriber) error {
 					// DisableInitialHostLookup the pool it had (under the id the session
 					// made up for its contact point) has just been removed
 					r.session.startPoolFill(host)
+				} else if _, freed := freedAddrs[host.ConnectAddress().String()]; freed {
+					// ... or, if the control connection gave it a pool before this refresh ran,
+					// the policies have just forgotten it together with the made-up host at
+					// its address
+					r.session.policy.AddHost(host)
 				}
 			} else {
 				// host IP has changed
